@@ -172,6 +172,8 @@ class Rules:
             self.r_stop_set(I, seg)
             self.r_pop_own(I, seg)
             self.r_replay(I, seg)
+            self.r_payload_range(I, seg)
+            self.r_err_names_token(I, seg)
 
     # -- R-NONEMPTY and R-ERR-PAIR ---------------------------------------------------------------
     MAY_BE_EMPTY = {"EOF", "MacroSep", "MacroStringEmpty", "SEMI", "LPAREN", "RPAREN", "ASSIGN", "COMMA", "FSLASH",
@@ -533,6 +535,69 @@ class Rules:
                  "the mode-stack truncation (rollback) discards pending expectation mode(s) %s that were put on the stack after the "
                  "checkpoint was taken: the missing delimiter will not be diagnosed; removed modes (bottom..top): %s; conditions: %s"
                  % (what, [getattr(m, "variant", "?") for m in removed], "; ".join(seg.st.conds[-4:])[:200]))
+
+    # -- R-ERR-NAMES-TOKEN: an "unterminated" diagnostic is recorded after the token it is about -----------------------------
+    NAMING_ERRORS = ("UnterminatedStringLiteral", "UnterminatedComment")
+
+    def r_err_names_token(self, I, seg):
+        """An error remembers `buffer.last_token()` at the moment it is recorded.  C06 lets a comment or quoted literal
+        go without its closing delimiter only if an "unterminated" error *names that token*, so in the function that
+        reports it the token (or its re-typing) must already be in the buffer and nothing may be emitted after it."""
+        st = seg.st
+        evs = seg.events[seg.start:]
+        for i, e in enumerate(evs):
+            if e.kind != "error" or e.d.get("owner") != seg.name:
+                continue
+            ks = variant_set(I, st, e.d.get("err")) or set()
+            if not ks or not ks <= set(self.NAMING_ERRORS):
+                continue
+            key = "%s|%s" % (short_fn(seg.name), "/".join(sorted(ks)))
+            self.bump("R-ERR-NAMES-TOKEN", "errors", key)
+            own = lambda x: x.d.get("owner") == seg.name
+            before = any(x.kind == "emit" or (x.kind == "lasttok_write" and x.d.get("field") in ("token_type", None)) for x in evs[:i] if own(x))
+            after = [x for x in evs[i + 1:] if x.kind == "emit" and own(x)]
+            ok = before and not after
+            I.ob("R-ERR-NAMES-TOKEN", key, ok, self.sites.where(e),
+                 "the unterminated token is in the buffer when its error is recorded, and is the last one" if ok else
+                 "%s records %s %s: the error remembers the last token at that moment, so it names %s instead of the "
+                 "unterminated token, which is then left without its closing delimiter and without an error naming it"
+                 % (short_fn(seg.name), "/".join(sorted(ks)),
+                    "before emitting the token it is about" if after else "without having emitted a token",
+                    "the token before it" if after else "an earlier token"))
+
+    # -- R-PAYLOAD-RANGE: a string payload is a pair of positions in the literal buffer ------------------------------------
+    def r_payload_range(self, I, seg):
+        """`Payload::StringLiteral(a, b)` is a half-open range of the string-literal buffer.  Both components must be
+        positions the buffer handed out (`next_string_literal_start`, the pair returned by `add_string_literal*`, or the
+        minimum of such positions) - never a length or another quantity, which only coincides with a position while the
+        buffer is empty."""
+        def is_pos(v):
+            for _ in range(4):
+                if isinstance(v, Term) and (v.op.startswith("cast:") or v.op == "into") and v.args:
+                    v = v.args[0]
+            if isinstance(v, Term) and v.op in ("litpos", "lit_end", "lit_next"):
+                return True
+            if isinstance(v, Term) and v.op.startswith("ext:") and "min" in v.op and v.args:
+                return all(is_pos(a) for a in v.args)
+            return False
+        for e in seg.events[seg.start:]:
+            if e.d.get("owner") != seg.name:
+                continue
+            p = None
+            if e.kind == "emit":
+                p = e.d.get("payload")
+            elif e.kind == "lasttok_write" and e.d.get("field") == "payload":
+                p = e.d.get("value")
+            if not (isinstance(p, Enum) and p.variant == "StringLiteral" and len(p.args) == 2):
+                continue
+            key = "%s|payload-range" % short_fn(seg.name)
+            self.bump("R-PAYLOAD-RANGE", "payloads", self.sites.key(e))
+            bad = [i for i, a in enumerate(p.args) if not is_pos(a)]
+            I.ob("R-PAYLOAD-RANGE", key, not bad, self.sites.where(e),
+                 "both ends of the payload range are positions handed out by the literal buffer" if not bad else
+                 "%s builds Payload::StringLiteral(%r, %r): the %s component is not a position of the literal buffer (it "
+                 "equals one only while the buffer is empty, i.e. when nothing before this token was unquoted)"
+                 % (short_fn(seg.name), p.args[0], p.args[1], "second" if bad[-1] == 1 else "first"))
 
     # -- R-REPLAY-AGREE: a loop that re-walks what a look-ahead loop validated continues on the same characters ----------
     def r_replay(self, I, seg, pairs=True):
@@ -936,6 +1001,10 @@ class Rules:
 
     # -- R-SPEC-PURITY: no diagnostics while a checkpoint is live ------------------------------------
     def r_spec_purity(self, I, seg):
+        if getattr(self, "in_finalize", False):
+            # at end of input nothing rolls back any more (R-EOF-AT-END: finalize_lexing never puts the cursor back), so a
+            # checkpoint that is still set when the unwinding starts cannot take a diagnostic's token away
+            return
         st = seg.st
         for e in seg.events[seg.start:]:
             if e.kind != "error" or e.d.get("owner") != seg.name:
@@ -1436,7 +1505,9 @@ class Rules:
             return
         pushes = [e.d.get("mode") for e in evs if e.kind == "push"]
         seq = [abstract_mode(I, st, m) for m in reversed(pushes)]   # lexing order
+        detail = " ".join(re.sub(r"\s+", "", repr(m))[:120] for m in reversed(pushes))   # with the flag values of each mode
         for k in sorted(kws):
+            self.bump("R-FAMILY-AGREE", "seqs", "%s|%s" % (k, detail))
             self.bump("R-EXPECT-TABLE", "keywords", k)
             for clause, ok, why in expect_clauses(self, k, seq):
                 I.ob("R-EXPECT-TABLE", "%s|%s" % (k, clause), ok, F.file_line(self.fx.bodies[seg.name]["span"]),
@@ -2132,8 +2203,26 @@ def finalize_rules(fx, I, R, mode, outs):
             cur["n"] += 1
             if cur["ok"] and not ok:
                 cur.update(ok=False, site=site, detail=detail)
+    from . import lea_prims as _lp
     for o in outs:
         evs = o.st.events
+        # R-EOF-AT-END: the EOF token is emitted with the cursor at the end of the text: nothing the unwinding does may
+        # put the cursor back (a rollback at end of input un-consumes text that is never lexed again)
+        strm = I.stream_of(o.st, "main")
+        for e in evs:
+            if e.kind == "cursor_restore":
+                ob("R-EOF-AT-END", "finalize_lexing|%s|cursor-restore@%s" % (mode, short_fn(e.d.get("owner") or "?")), False,
+                   F.file_line(e.d.get("osite") or e.site or "?"),
+                   "while unwinding mode %s at end of input the cursor is put back (%s): the text after that position is "
+                   "not lexed again, so the remaining virtual tokens and EOF do not sit at the end of the source and the "
+                   "tokens no longer cover it" % (mode, short_fn(e.d.get("owner") or "?")))
+            elif e.kind == "emit":
+                ts = variant_set(I, o.st, e.d.get("type"))
+                if ts == {"EOF"}:
+                    at_end = _lp.eof_known(o.st, strm, e.d.get("pos")) is True
+                    ob("R-EOF-AT-END", "finalize_lexing|eof-position", at_end, F.file_line(e.d.get("osite") or e.site or "?"),
+                       "EOF is emitted with the cursor at the end of the text" if at_end else
+                       "EOF is emitted while the cursor is not known to be at the end of the text (mode %s)" % mode)
         cur_arm = None
         pops = 0
         for e in evs:
@@ -2405,6 +2494,33 @@ def keyword_length_obs(counts):
                     if not missing else
                     "no path of %s consults %s for an identifier of length %s: the length conditions in front of the lookup "
                     "exclude it, so keywords of that length are never recognised" % (tag.split("|")[0], tag.split("|")[1], missing)})
+    return obs
+
+
+def family_agree_obs(counts):
+    """R-FAMILY-AGREE: the Q / K / QK variants of a built-in (quoting and DBCS flavours of the same function: %scan,
+    %qscan, %kscan, %qkscan) pre-load the same mode sequence as the function they are a flavour of.  Families are read
+    off the keyword names the crate itself uses; sequences are the abstract pre-loaded modes in lexing order, joined over
+    all paths and modes."""
+    seqs = {}
+    for k in counts.get("R-FAMILY-AGREE", {}).get("seqs", ()):
+        kw, _, sq = k.partition("|")
+        seqs.setdefault(kw, set()).add(sq)
+    names = {k[3:]: k for k in seqs if k.startswith("Kwm")}
+    import os
+    with open(os.path.join(os.path.dirname(os.path.dirname(os.path.abspath(__file__))), "tables", "family_exceptions.json")) as f:
+        exempt = json.load(f)["pairs"]
+    obs = []
+    for root, rk in sorted(names.items()):
+        fam = [names[p + root] for p in ("Q", "K", "QK") if (p + root) in names]
+        if not fam:
+            continue
+        bad = [m for m in fam if seqs[m] != seqs[rk] and ("%s|%s" % (rk, m)) not in exempt]
+        obs.append({"rule": "R-FAMILY-AGREE", "key": "%s|family" % rk, "ok": not bad, "site": "", "n": 1, "modes": [],
+                    "detail": "%s and its flavours %s pre-load the same modes" % (rk, ", ".join(fam)) if not bad else
+                    "%s pre-loads %s but its flavour %s pre-loads %s: the variants of one built-in take the same arguments, so "
+                    "one of them lexes an argument in the wrong mode (an expression as text or the reverse)"
+                    % (rk, sorted(seqs[rk])[:2], bad[0], sorted(seqs[bad[0]])[:2])})
     return obs
 
 
